@@ -64,7 +64,11 @@ def _cname(c):
 def table_case(ctx, case):
     """case {version, direction, state, claimed: bool, order?: [int]}"""
     v, d, s = case['version'], case['direction'], case['state']
-    claimed = case.get('claimed', True)
+    claimed = case.get('claimed')
+    if claimed is None:
+        # the property quantifies over the versions the tree under test
+        # marks as supported
+        claimed = v in _protocols()[0]
     c = _ctx(v)
     ctx.ev()
     try:
@@ -142,6 +146,8 @@ def table_case(ctx, case):
                          _cname(tab[i]) if i in tab else None, _cname(cls))
 
 
+from props import c04_position as _P4   # noqa: E402
+table_case = _P4.reassigned(table_case)
 COMPONENTS = {'table': table_case}
 
 
